@@ -59,7 +59,7 @@ pub fn block_bytes(b: &BlockSpec) -> Vec<u8> {
 }
 
 fn fill(seed: u64, bank: usize) -> Vec<u8> {
-    let mut x = (seed ^ ((bank as u64 + 7) * 0x9E3779B97F4A7C15)) | 1;
+    let mut x = (seed ^ ((bank as u64 + 7).wrapping_mul(0x9E3779B97F4A7C15))) | 1;
     let mut v = vec![0u8; mach::PAGE];
     for chunk in v.chunks_mut(8) {
         x ^= x << 13;
